@@ -88,6 +88,17 @@ func solveOne(s *Script, o *Obligation, file string, timeoutS int, crossCheck bo
 		return
 	}
 	ctx := context.Background()
+	if o.Expect == "sat" {
+		// vacuity guards: only a refutation (unsat) is a failure; do not spend the full budget on them
+		r := runSolver(ctx, Solvers[0], file, 2)
+		o.Solver, o.TimeS, o.Detail = r.solver, r.secs, fmt.Sprintf("%s: %s (%.2fs)", r.solver, r.verdict, r.secs)
+		if r.verdict == "unsat" {
+			o.Status = "failed"
+		} else {
+			o.Status = "discharged"
+		}
+		return
+	}
 	// stage 1: z3-new alone for a short while
 	first := timeoutS
 	if first > 3 {
@@ -131,8 +142,17 @@ func solveOne(s *Script, o *Obligation, file string, timeoutS int, crossCheck bo
 			o.Model = r.out
 		default:
 			o.Status = "unknown"
-			if len(results) > 0 {
-				o.Model = results[len(results)-1].out
+			// no model: search for a candidate input in the context without its quantified facts
+			// (weaker context => possibly spurious; it only counts once the replay confirms it on the real code)
+			relaxed := relaxedScript(s, o)
+			rf := file + ".relaxed.smt2"
+			if os.WriteFile(rf, []byte(relaxed), 0o644) == nil {
+				rr := runSolver(ctx, Solvers[0], rf, 5)
+				o.Detail += fmt.Sprintf("; relaxed(z3-new): %s (%.2fs)", rr.verdict, rr.secs)
+				if rr.verdict == "sat" {
+					o.Model = rr.out
+					o.Relaxed = true
+				}
 			}
 		}
 	case "sat":
@@ -143,4 +163,64 @@ func solveOne(s *Script, o *Obligation, file string, timeoutS int, crossCheck bo
 			o.Status = "discharged"
 		}
 	}
+}
+
+// CrossCheck re-runs every discharged obligation on the solvers that did not decide it (thorough tier):
+// none may answer sat; agreement counts are recorded.
+func CrossCheck(s *Script, workDir string, timeoutS int, workers int) {
+	os.MkdirAll(workDir, 0o755)
+	var wg sync.WaitGroup
+	sem := make(chan struct{}, workers)
+	for i, o := range s.Obls {
+		if o.Status != "discharged" || o.Expect != "unsat" {
+			continue
+		}
+		wg.Add(1)
+		sem <- struct{}{}
+		go func(i int, o *Obligation) {
+			defer wg.Done()
+			defer func() { <-sem }()
+			file := filepath.Join(workDir, fmt.Sprintf("x%04d.smt2", i))
+			os.WriteFile(file, []byte(ScriptFor(s, o, "")), 0o644)
+			agree := 1
+			var parts []string
+			for _, cfg := range Solvers {
+				if cfg.Name == o.Solver {
+					continue
+				}
+				r := runSolver(context.Background(), cfg, file, timeoutS)
+				parts = append(parts, cfg.Name+"="+r.verdict)
+				if r.verdict == "unsat" {
+					agree++
+				}
+				if r.verdict == "sat" {
+					parts = append(parts, "sat!")
+				}
+			}
+			o.Cross = fmt.Sprintf("agree=%d", agree)
+			for _, p := range parts {
+				if p == "sat!" {
+					o.Cross += " sat!"
+				}
+			}
+		}(i, o)
+	}
+	wg.Wait()
+}
+
+func relaxedScript(s *Script, o *Obligation) string {
+	var b strings.Builder
+	b.WriteString(Prelude)
+	for _, l := range s.Lines[:o.CtxLen] {
+		if strings.HasPrefix(l, "(assert") && (strings.Contains(l, "(forall ") || strings.Contains(l, "(exists ")) {
+			continue
+		}
+		b.WriteString(l)
+		b.WriteByte('\n')
+	}
+	b.WriteString("(assert (not " + o.Formula + "))\n(check-sat)\n")
+	if len(o.Inputs) > 0 {
+		b.WriteString("(get-value (" + strings.Join(o.Inputs, " ") + "))\n")
+	}
+	return b.String()
 }
